@@ -90,7 +90,7 @@ PROPS = {
         "rule": ("pattern strings of length 0-12 over letters, upper case, non-ASCII (cased, uncased, folding-lowercase, title case), every kind of whitespace, "
                  "backslash and the four markers, all CaseMatching x Normalization; reference grammar + ASCII->non-ASCII substitution metamorphic check + "
                  "escape round trip + reparse on a reused object; distinct_nontrivial = distinct pattern strings yielding at least one atom"),
-        "require": {"any": {"c14.parsed": 1000, "c14.metamorphic": 500, "c14.escape-roundtrip": 1000, "c14.reparsed": 1000}},
+        "require": {"any": {"c14.parsed": 1000, "c14.metamorphic": 500, "c14.escape-roundtrip": 1000, "c14.reparsed": 1000, "c14.sweep-parsed": 100000}},
         "assumptions": ["reference grammar pinned to the repository's documented ASCII behaviour where the property text is silent (DESIGN.md C14)",
                         "upper case judged only where Unicode Uppercase and chars::is_upper_case agree"],
     },
@@ -99,7 +99,7 @@ PROPS = {
         "replay": replay_matcher("compose"),
         "rule": ("0-6 atoms of all kinds/polarities with mixed case/normalization flags, haystacks from the pattern alphabet, lists with duplicates and ties, 1-3 columns; "
                  "reference = composition atom by atom on fresh matchers; the shared matcher is dirtied by unrelated calls; distinct_nontrivial = distinct (atoms, haystack) pairs with at least one atom"),
-        "require": {"any": {"c15.matching": 1000, "c15.non-matching": 1000, "c15.with-negation": 1000, "c15.match-list-checked": 1000, "c15.multi-column-checked": 1000}},
+        "require": {"any": {"c15.matching": 1000, "c15.non-matching": 1000, "c15.with-negation": 1000, "c15.match-list-checked": 1000, "c15.multi-column-checked": 1000, "c15.sum-beyond-u16": 100}},
         "assumptions": ["single-atom matching itself is judged by C01-C05"],
     },
     "C16": {
@@ -251,7 +251,26 @@ def c08_jobs(tier):
         bx("stress-asan", "stress", "asan", 2, 1000000, 15 if q else 300, sanitizer=True, env=ASAN_ENV, crash_is_violation=True),
         bx("stress-miri", "stress", "miri", 6 if q else 16, 2 if q else 30, 120 if q else 3000, extra=["--small", "1"], sanitizer=True,
            miriflags=MIRI_SB + " -Zmiri-preemption-rate=0.05", timeout=500 if q else 4000),
+    ] + layout_jobs(tier, exhaust=True)
+
+
+def layout_jobs(tier, exhaust=False, asan=False):
+    # single threaded: item types of every alignment / with and without drop glue x columns x capacities; exhausted index space
+    q = tier != "thorough"
+    out = [
+        bx("layout-chk", "layout", "chk", 2, 1000000, 10 if q else 120),
+        bx("layout-miri", "layout", "miri", 6 if q else 16, 2 if q else 40, 400 if q else 3000, sanitizer=True, miriflags=MIRI_SB, timeout=900 if q else 5000),
     ]
+    if asan:
+        out.append(bx("layout-asan", "layout", "asan", 1, 1000000, 10 if q else 120, sanitizer=True, env=ASAN_ENV, crash_is_violation=True))
+    if exhaust:
+        out += [
+            bx("exhaust-chk", "exhaust", "chk", 1, 1000000, 8 if q else 60, extra=["--quiet-panics", "1"]),
+            bx("exhaust-rel", "exhaust", "rel", 1, 1000000, 8 if q else 60, extra=["--quiet-panics", "1"]),
+            bx("exhaust-miri", "exhaust", "miri", 2 if q else 8, 10 if q else 200, 300 if q else 2000, extra=["--quiet-panics", "1"], sanitizer=True, miriflags=MIRI_SB,
+               timeout=900 if q else 4000),
+        ]
+    return out
 
 
 PROPS["C08"] = {
@@ -264,7 +283,8 @@ PROPS["C08"] = {
              "same points, checked with interval rules; (3) ASan and Miri (Stacked Borrows, leak check) on the same shapes. distinct_nontrivial = distinct (thread, yield point) trace "
              "hashes of controlled schedules plus distinct stress histories"),
     "require": {"any": {"schedules": 2000, "schedules-with-competing-bucket-allocation": 20, "gets-that-met-an-unpublished-or-reserved-slot": 100,
-                         "snapshots-that-met-unpublished-slots": 100, "lying-iterators": 100, "histories": 50, "ops-overlapping-another-thread": 1000}},
+                         "snapshots-that-met-unpublished-slots": 100, "lying-iterators": 100, "histories": 50, "ops-overlapping-another-thread": 1000,
+                         "exhaust.reservations-beyond-2^32": 100, "layout.references-checked": 10000}},
     "assumptions": ["yield points are placed before every atomic operation of the vector (MANIFEST.hooks); interleavings inside a fill callback are not split further",
                     "batch contiguity is recorded, not judged"],
 }
@@ -305,7 +325,7 @@ def c11_jobs(tier):
         wk("nucleo-chk", "random", "chk", 8, 1000000, 25 if q else 900, props="C11"),
         wk("nucleo-directed", "directed", "chk", 4, 1000000, 25 if q else 600, props="C11"),
         wk("nucleo-asan", "random", "asan", 4, 1000000, 20 if q else 600, props="C11", sanitizer=True, env=ASAN_ENV),
-    ]
+    ] + layout_jobs(tier, asan=True)
 
 
 PROPS["C11"] = {
@@ -316,7 +336,8 @@ PROPS["C11"] = {
              "histories of push/extend with honest, over- and under-reporting iterators (over-reporting across several buckets followed by pushes that land behind the gap), callbacks that "
              "panic at position k, capacities where bucket b+1 is allocated while bucket b never is - natively, under ASan+LSan and under Miri with the leak checker; Nucleo level random and "
              "directed histories (restart, clones, injectors dropped in any order, held writers, background bursts) natively and under ASan+LSan. distinct_nontrivial = distinct history shapes"),
-    "require": {"any": {"c11.gap-shapes": 50, "c11.payloads-created": 10000, "histories": 500, "restarts.clear": 10, "restarts.keep": 10}},
+    "require": {"any": {"c11.gap-shapes": 50, "c11.payloads-created": 10000, "histories": 500, "restarts.clear": 10, "restarts.keep": 10,
+                         "c11.plain-data-items-with-filled-columns": 1000}},
     "assumptions": ["column allocations of a panicking callback are not judged (the property does not promise them)",
                     "after restart the matcher may let go of the old stream at any time; only injector handles count as 'can reach' for the early-drop rule of old streams",
                     "the pool thread that ran the last run releases its worker reference asynchronously: drop counts get up to 10 s to settle (a leak never settles)"],
@@ -345,12 +366,12 @@ RULE_WORKER = ("scripted histories against a real Nucleo (threads 1/2/3/4/8/16, 
                "Every snapshot after every tick is checked. distinct_nontrivial = distinct histories")
 
 PROPS["C06"] = {
-    "jobs": worker_jobs("C06", with_asan=True),
+    "jobs": lambda tier: worker_jobs("C06", with_asan=True)(tier) + layout_jobs(tier),
     "replay": replay_generic("worker_mon", "random", "C06"),
     "evaluations": ["histories"],
     "rule": RULE_WORKER,
     "require": {"any": {"ticks": 2000, "snapshots-with-writer-in-flight": 200, "snapshots-with-2+-writers-in-flight": 100, "directed.two-in-flight": 20,
-                         "directed.tick-over-paused-run": 5, "tick.changed=true.running=true": 50}},
+                         "directed.tick-over-paused-run": 5, "tick.changed=true.running=true": 50, "layout.references-checked": 10000}},
     "assumptions": ["matcher configuration fixed per history", "scores are recomputed with snapshot.pattern() on the monitor's own Matcher"],
 }
 PROPS["C07"] = {
